@@ -1070,8 +1070,28 @@ def rule_c17_r3(model: Model) -> RuleResult:
         """``v`` is the table ``name`` itself or a value rewrite of it (same keys, same order)."""
         if isinstance(v, ast.Name) and v.id == name:
             return True
-        return isinstance(v, ast.DictComp) and len(v.generators) == 1 and not v.generators[0].ifs \
-            and unparse(v.generators[0].iter) == f'{name}.items()' and isinstance(v.key, ast.Name)
+        if isinstance(v, ast.DictComp) and len(v.generators) == 1 and not v.generators[0].ifs \
+                and unparse(v.generators[0].iter) == f'{name}.items()' and isinstance(v.key, ast.Name):
+            return True
+        if isinstance(v, ast.Name):
+            # a second table built empty and filled, key by key and unconditionally, by one loop over the items of the first
+            other = v.id
+            inits = [st for st in ast.walk(f.node) if isinstance(st, (ast.Assign, ast.AnnAssign)) and st.value is not None
+                     and any(isinstance(tg, ast.Name) and tg.id == other for tg in (st.targets if isinstance(st, ast.Assign) else [st.target]))]
+            if not inits or not all(isinstance(st.value, ast.Dict) and not st.value.keys for st in inits):
+                return False
+            stores = [st for st in ast.walk(f.node) if isinstance(st, ast.Assign) and len(st.targets) == 1
+                      and isinstance(st.targets[0], ast.Subscript) and unparse(st.targets[0].value) == other]
+            if len(stores) != 1 or any(isinstance(c_, ast.Call) and isinstance(c_.func, ast.Attribute) and unparse(c_.func.value) == other
+                                       and c_.func.attr in ('pop', 'update', 'clear', 'setdefault', 'popitem') for c_ in ast.walk(f.node)):
+                return False
+            st = stores[0]
+            loop = next((a_ for a_ in ancestors(st) if isinstance(a_, ast.For)), None)
+            if loop is None or unparse(loop.iter) != f'{name}.items()' or st not in loop.body:
+                return False        # (a store nested in an `if` would drop keys)
+            ktg = loop.target.elts[0] if isinstance(loop.target, ast.Tuple) and loop.target.elts else None
+            return isinstance(ktg, ast.Name) and isinstance(st.targets[0].slice, ast.Name) and st.targets[0].slice.id == ktg.id
+        return False
 
     def writes(g: FuncInfo, name: str, depth: int = 0) -> t.Tuple[t.List[t.Tuple[FuncInfo, ast.AST]], int]:
         """(disallowed writes to the table ``name`` inside ``g``, number of in-place updates), following helpers the table is handed to."""
@@ -1101,6 +1121,10 @@ def rule_c17_r3(model: Model) -> RuleResult:
                                 bad_.extend(hb or [(g, st)])
                                 continue
                         bad_.append((g, st))
+            if isinstance(st, ast.For) and any(isinstance(x_, ast.Assign) and len(x_.targets) == 1 and isinstance(x_.targets[0], ast.Subscript)
+                                               and unparse(x_.targets[0].value) == name for x_ in st.body) \
+                    and not re.search(rf'\b{re.escape(name)}\b', unparse(st.iter)):
+                upd += 1        # `for k, v in other.items(): table[k] = v` is table.update(other)
             if isinstance(st, ast.Call) and isinstance(st.func, ast.Attribute) and unparse(st.func.value) == name:
                 if st.func.attr == 'update':
                     upd += 1
@@ -1152,7 +1176,9 @@ def rule_c17_r4(model: Model) -> RuleResult:
                         if k is not None and nz.expr(k, n) == "'__pane_boundvars__'":
                             form = nz.expr(v, n)
     r.sample({'bound_vars': form})
-    want = ("zip(getattr(cls.__parameters__, ()), $params)", "dict(zip(getattr(cls.__parameters__, ()), $params))")
+    # (`{p: a for (p, a) in zip(ps, args)}` is dict(zip(ps, args)): element-wise pairing of the two sequences)
+    want = ("zip(getattr(cls.__parameters__, ()), $params)", "dict(zip(getattr(cls.__parameters__, ()), $params))",
+            "DICT(ELEM(getattr(cls.__parameters__, ())): ELEM($params))")
     if form is not None and form.replace('$cls', 'cls') in want:
         r.ok()
     elif form is None:
